@@ -31,6 +31,7 @@ func main() {
 	unit := flag.String("unit", "", "unit name filter (substring)")
 	dump := flag.String("dump", "", "dump queries of obligations matching substring")
 	timeout := flag.Int("timeout", 10000, "solver timeout ms")
+	anchors := flag.String("anchors", "", "list call/loop anchors of a function (canonical name)")
 	prelude := flag.String("prelude", "/verif/prelude", "prelude directory")
 	flag.Parse()
 	defer vc.CleanupScratch()
@@ -38,6 +39,12 @@ func main() {
 	if err != nil {
 		fmt.Println("load error:", err)
 		os.Exit(2)
+	}
+	if *anchors != "" {
+		for _, a := range eng.Anchors(*anchors) {
+			fmt.Println(a)
+		}
+		return
 	}
 	for name, spec := range eng.Contracts {
 		if spec.Assumed || (*unit != "" && !strings.Contains(name, *unit)) {
